@@ -163,3 +163,49 @@ CHECKS["C10"] = {
     ],
     "mandatory_labels": {"all": ["crash-inside/open", "crash-inside/register", "crash-inside/seal", "crash-inside/init", "crash-inside/push", "non-batching-datastore"]},
 }
+
+CHECKS["C11"] = {
+    "level": "exploration",
+    "level_text": ("generated accounts, groups and orders of first use across two stores per account (derive before/after import, cached vs recomputed) with "
+                   "cross-store equality / inequality oracles, plus a generated matrix (prior use of the destination store x key blob kind) for the import guards"),
+    "level_note": "trusts Ed25519/X25519 and the keystore-on-datastore; compares stores with each other, never a store with itself only",
+    "technique": "property-based testing (rapid): differential between independent stores, guard matrix",
+    "rule": ("derivations: case = (2-4 accounts, order of first uses); every case compares two stores per account (non-trivial by construction). "
+             "import: case = (prior use, blob kind). distinct = distinct (accounts, uses) / (pre, blob)"),
+    "assumptions": ["swapped (account<->proof) blobs are two distinct Ed25519 keys and are accepted as another account; the statement lists only already-has-account, non-Ed25519 and equal keys as refusals"],
+    "units": [
+        {"pkg": _SS, "run": "^TestVerif_C11_", Q: {"timeout": 600}, T: {"timeout": 3400, "shards": 12}},
+    ],
+    "mandatory_labels": {"all": ["derive/first-use-before-import", "import/refused", "import/accepted", "import/pre=proof-key", "import/pre=member-device", "import/blob=equal", "import/blob=rsa-account"]},
+}
+
+CHECKS["C14"] = {
+    "level": "exploration",
+    "level_text": ("rapid-generated sessions mixing log opens and push opens of the same messages in every order (1-2 groups, 1-2 senders, small and default "
+                   "windows, counters at and beyond both window edges) against the reference ratchet model extended with the reference window, plus an "
+                   "exhaustive single-bit-flip sweep of a push payload"),
+    "level_note": "nothing is asserted exactly on the reference-window edge counters L+-R; above the registered counter only the sufficient condition of C02 is used for the log path",
+    "technique": "model-based property testing (rapid) with a round-trip/negative oracle",
+    "rule": ("case = one session history; non-trivial = some message opened through both paths in both orders (log then push, push then log) and an attempt within one "
+             "counter of a reference-window edge; distinct = (windows, history)"),
+    "assumptions": ["push payloads carry the message CID, as OutOfStoreSeal produces them", "the reference table is advanced after every log open as the message store does"],
+    "units": [
+        {"pkg": _SS, "run": "^TestVerif_C14_", Q: {"timeout": 600}, T: {"timeout": 3400, "shards": 12}},
+    ],
+    "mandatory_labels": {"all": ["log-then-push", "push-then-log", "push-twice", "near-reference-edge", "tampered", "two-senders", "two-groups", "default-windows", "bitflip-sweep", "insider-forged-push"]},
+}
+
+CHECKS["C05"] = {
+    "level": "exploration",
+    "level_text": ("crypto half: rapid-generated (sender device, recipient member, group type, announcement counter incl. varint boundaries) triples with a full negative "
+                   "catalogue (other member, other group with identical keys, other claimed sender, every single-bit flip, truncation/extension) and exactness/effect "
+                   "oracles. distribution half: generated activation orders and delivery plans between real replicas, completeness oracle at quiescence"),
+    "level_note": "trusts NaCl box and the Ed25519->X25519 conversion; 'members are active' is modelled as 'group context activated and not closed'",
+    "technique": "property-based testing (rapid): round-trip + negative catalogue + by-effect oracle; generated delivery plans for the distribution half",
+    "rule": ("crypto: case = one triple with all its negatives; every case compares recipient vs non-recipients (non-trivial by construction); distinct = (kind, window, counter, j, n)"),
+    "assumptions": ["the sender's stored counter may be any value below 2^41 (set directly to reach varint boundaries cheaply)"],
+    "units": [
+        {"pkg": _SS, "run": "^TestVerif_C05_", Q: {"timeout": 600}, T: {"timeout": 3400, "shards": 12}},
+    ],
+    "mandatory_labels": {"all": ["crypto/kind=account", "crypto/kind=contact", "crypto/kind=multimember", "crypto/counter>=128", "crypto/messages-before-announcement"]},
+}
